@@ -275,8 +275,17 @@ pub fn match_rows(l: &Loaded) -> (Vec<MatchRow>, usize, bool) {
     (rows, n_groups, catch_all)
 }
 
+/// The string lalrpop's `lexer::intern_token::compile` hands to `regex` at run time:
+/// `^(<Hir printed back>)`.
+fn runtime_regex(r: &MatchRow) -> Option<String> {
+    dfa::parse_pattern(r.kind, &r.pattern)
+        .ok()
+        .map(|hir| format!("^({})", hir))
+}
+
 fn match_row_json(r: &MatchRow) -> Value {
     json!({
+        "runtime_regex": runtime_regex(r),
         "pattern_kind": r.kind.as_str(),
         "pattern": r.pattern,
         "user_name": r.user_name,
@@ -583,6 +592,34 @@ fn sets_json(m: &BTreeMap<String, BTreeSet<String>>) -> Value {
     )
 }
 
+/// lalrpop names a helper nonterminal by the canonical text of the symbol it expands
+/// (`parse_tree::Symbol::canonical_form`, exported as `canonical` on every parse-tree symbol);
+/// the name is exported verbatim as `text` and classified by its shape.
+fn origin_json(name: &str, start_of: Option<String>) -> Value {
+    if let Some(user) = start_of {
+        return json!({ "kind": "start", "text": name, "of": user });
+    }
+    if name == "@L" {
+        return json!({ "kind": "lookahead", "text": name });
+    }
+    if name == "@R" {
+        return json!({ "kind": "lookbehind", "text": name });
+    }
+    if let Some(op) = name.chars().last().filter(|c| "*+?".contains(*c)) {
+        let inner = &name[..name.len() - 1];
+        return json!({ "kind": "repeat", "text": name, "op": op.to_string(), "inner": inner });
+    }
+    if name.starts_with('(') && name.ends_with(')') {
+        return json!({ "kind": "expr", "text": name });
+    }
+    if name.ends_with('>') {
+        if let Some(i) = name.find('<') {
+            return json!({ "kind": "macro", "text": name, "macro": &name[..i] });
+        }
+    }
+    json!({ "kind": "other", "text": name })
+}
+
 pub struct FactsOptions {
     /// start symbols to build automata for; None = all public nonterminals
     pub automata: Option<Vec<String>>,
@@ -648,6 +685,8 @@ pub fn facts(l: &Loaded, opts: &FactsOptions) -> Result<Value, String> {
             "explicit_groups": n_groups,
             "catch_all": catch_all,
             "entry_count": rows.len(),
+            // intern_token::compile appends `(r"^(\s*)", true)` when no entry is a skip entry
+            "default_whitespace_skip": l.lowered.intern_token.is_some() && !rows.iter().any(|r| r.skip),
             "lexer_order": l.lowered.intern_token.as_ref().map(|it| it
                 .match_entries
                 .iter()
@@ -683,18 +722,13 @@ pub fn facts(l: &Loaded, opts: &FactsOptions) -> Result<Value, String> {
         .filter(|d| !written.contains(&d.name.to_string()))
         .map(|d| {
             let name = d.name.to_string();
-            let what = if l
+            let is_start = l
                 .lowered
                 .start_nonterminals
-                .values()
-                .any(|v| v.to_string() == name)
-            {
-                "start symbol wrapper".to_string()
-            } else {
-                // lalrpop names helper nonterminals by the canonical text of what they expand
-                name.clone()
-            };
-            (name, json!(what))
+                .iter()
+                .find(|(_, v)| v.to_string() == name)
+                .map(|(k, _)| k.to_string());
+            (name.clone(), origin_json(&name, is_start))
         })
         .collect();
     top.insert(
